@@ -123,10 +123,38 @@ def _ctc_names(c: AObj) -> set[str]:
     return out
 
 
+# sizes that follow from the definitions for constraints whose class is beyond doubt: k13, k14, k15 convert to simple
+# constraints; the three `S00 | Sxx` and k12 (a clause of three literals) do not
+EXPECT_SIZES = {"twelve-constraints": {"Pseudo-complex constraints": 3, "Strict-complex constraints": 4,
+                                       "Complex constraints": 7, "Simple constraints": 8}}
+
+
 def models(mb: ModelBuilder) -> dict[str, AObj]:
     ms = {"rich": rich_model(mb), "rich-noctc": rich_model(mb, ctcs=False)}
-    for k in ("root-only", "one-child", "bushy", "two-groups"):
+    for k in ("root-only", "one-child", "bushy", "two-groups", "wide-12", "nested-groups", "five-groups", "deep-9"):
         ms[k] = mb.model(build_tree(mb, TREES[k]), [])
+    # twelve constraints of every class over a wide tree, one feature named in eleven of them (two-digit counts)
+    hub = mb.feature("Hub")
+    spokes = [mb.feature(f"S{i:02d}") for i in range(12)]
+    for i, sp in enumerate(spokes):
+        mb.relation(hub, [sp], 0, 1)
+    n_, op_ = mb.node, mb.op
+    many = [mb.constraint(f"k{i}", n_(op_(("REQUIRES", "EXCLUDES", "IMPLIES", "OR")[i % 4]), n_("S00"), n_(f"S{i:02d}")))
+            for i in range(1, 12)]
+    many.append(mb.constraint("k12", n_(op_("AND"), n_(op_("OR"), n_("S01"), n_(op_("NOT"), n_("S02"))),
+                                        n_(op_("IMPLIES"), n_("S03"), n_(op_("AND"), n_("S04"), n_(op_("OR"), n_("S05"), n_("S06")))))))
+    # conjunctions of simple constraints nested to either side (six conjuncts), and an implication of a conjunction: each
+    # is convertible to a set of simple constraints, whatever the nesting
+    simple = lambda i: n_(op_(("REQUIRES", "EXCLUDES", "IMPLIES")[i % 3]), n_(f"S{i:02d}"), n_(f"S{i + 1:02d}"))  # noqa: E731
+    right = simple(5)
+    for i in (4, 3, 2, 1, 0):
+        right = n_(op_("AND"), simple(i), right)
+    left = simple(0)
+    for i in (1, 2, 3, 4, 5):
+        left = n_(op_("AND"), left, simple(i))
+    many += [mb.constraint("k13", right), mb.constraint("k14", left),
+             mb.constraint("k15", n_(op_("IMPLIES"), n_("S01"), n_(op_("AND"), n_("S02"), n_("S03"))))]
+    ms["twelve-constraints"] = mb.model(hub, many)
     # one feature carrying several group relations of different kinds (features with a group != group relations)
     r2 = mb.feature("Multi")
     mb.relation(r2, [mb.feature("a1"), mb.feature("a2")], 1, 1)
@@ -325,6 +353,13 @@ def check(pm: ProgramModel, ctx: Ctx) -> None:
             ctx.check(ok, "C17-SPLITS", f"disjoint:simple/complex:{mname}" if ok else "disjoint:simple/complex",
                       where_cls, "simple and complex are disjoint",
                       bad=f"'{mname}': constraints both simple and complex")
+        for name_, want_ in EXPECT_SIZES.get(mname, {}).items():
+            got_ = by_name.get(name_, {}).get("size")
+            ctx.check(got_ == want_, "C17-DEF", f"class-size:{name_}:{mname}" if got_ == want_ else f"class-size:{name_}", where_cls,
+                      f"'{mname}': {want_} {name_.lower()}",
+                      bad=f"'{mname}': {name_} has size {got_!r}, by definition {want_} (conjunctions of six simple constraints "
+                          f"nested to the left and to the right and `a => b & c` convert to simple constraints; `a | b` and a "
+                          f"three-literal clause do not)")
         # definitions ---------------------------------------------------------------------------------
         ref = reference(fm)
         for name, want in ref.items():
